@@ -545,10 +545,13 @@ void HyperedgeTreeEdge::writeEdgesToConns(HyperedgeTreeNode *ignored,
                     // pin routing.  If so, remove these points from the
                     // resulting route.
                     conn->m_display_route.ps.pop_back();
-                    if (prevNode->point == nextNode->point)
+                    std::vector<Point>& ps = conn->m_display_route.ps;
+                    if ((ps.size() > 1) &&
+                            (ps[ps.size() - 1] == ps[ps.size() - 2]))
                     {
-                        // Duplicated dummy point.  Remove second one.
-                        conn->m_display_route.ps.pop_back();
+                        // Duplicated dummy point.  Remove second one, but
+                        // keep the route ending at the pin position.
+                        ps.pop_back();
                     }
                 }
             }
